@@ -18,7 +18,9 @@ EXTENDS Integers, Sequences, FiniteSets, TLC
 CONSTANTS Clients,      \* strings
           MaxVer,       \* bound on invented version ids
           Dev,
-          Faults        \* TRUE: requests may fail before / after their effect
+          Faults,       \* TRUE: requests may fail before / after their effect
+          PageSize      \* 0: a listing is one atomic request; n > 0: a listing is a sequence of
+                        \* requests each returning the next n names (in name order) as they are then
 
 Nil == 0
 NoLatest == -1
@@ -41,7 +43,8 @@ NoRes == [kind |-> "-", ver |-> 0, pay |-> "-"]
 Idle == [pc |-> "idle", op |-> "-", parent |-> 0, seen |-> NoLatest, new |-> 0, body |-> "-",
          cands |-> {}, todo |-> {}, chosen |-> -1,
          L |-> {}, l |-> NoLatest, oldL |-> {}, S |-> {}, dels |-> {}, sdel |-> {}, odel |-> <<>>,
-         prob |-> 13, res |-> NoRes, req |-> <<"-", "-">>, rres |-> "-"]
+         prob |-> 13, res |-> NoRes, req |-> <<"-", "-">>, rres |-> "-",
+         lacc |-> {}, lold |-> {}, lafter |-> <<-1, -1>>, cand |-> -1]
 
 Init ==
   /\ latest = NoLatest /\ vers = {} /\ pay = [i \in 1..MaxVer |-> "-"] /\ old = {}
@@ -73,6 +76,21 @@ Req(op, name) == <<op, name>>
 Set(c, rec) == cl' = [cl EXCEPT ![c] = rec]
 Done(c, res) == [Idle EXCEPT !.prob = cl[c].prob, !.res = res]
 
+(* Object names are ordered like the hexadecimal ids they contain; version ids   *)
+(* are numbered in that order (traces are renumbered so by the harness), so the  *)
+(* name order of v-P-C is the lexicographic order of <<P, C>> and of s-V that of *)
+(* V.  A paged listing returns, per request, the next PageSize names after the   *)
+(* last one returned, as they exist at that moment.                             *)
+Less(a, b) == a[1] < b[1] \/ (a[1] = b[1] /\ a[2] < b[2])
+RECURSIVE TakeMin(_,_)
+TakeMin(S, k) ==
+  IF k = 0 \/ S = {} THEN {}
+  ELSE LET m == CHOOSE x \in S : \A y \in S : x = y \/ Less(x, y)
+       IN {m} \cup TakeMin(S \ {m}, k - 1)
+MaxKey(S) == CHOOSE x \in S : \A y \in S : x = y \/ Less(y, x)
+Unused(n) == n \in 1..MaxVer /\ pay[n] = "-"
+NoList(rec) == [rec EXCEPT !.lacc = {}, !.lold = {}, !.lafter = <<-1, -1>>]
+
 -----------------------------------------------------------------------------
 (* add_version(parent, body)                                               *)
 AVCall(c, parent, body) ==
@@ -89,13 +107,17 @@ AV1(c) ==   \* get latest
      ELSE Set(c, [cl[c] EXCEPT !.pc = "av2", !.seen = latest, !.req = Req("get", LName)])
   /\ UNCHANGED <<latest, vers, pay, old, snaps, spay, nextId, base, acked, bad>>
 
-AV2(c) ==   \* put v-PARENT-NEW
-  /\ cl[c].pc = "av2" /\ nextId <= MaxVer
-  /\ vers' = vers \cup {<<cl[c].parent, nextId>>}
-  /\ pay' = [pay EXCEPT ![nextId] = cl[c].body]
+AV2(c, n) ==   \* put v-PARENT-NEW (n: the id invented for the new version)
+  /\ cl[c].pc = "av2" /\ nextId <= MaxVer /\ Unused(n)
+  /\ vers' = vers \cup {<<cl[c].parent, n>>}
+  /\ pay' = [pay EXCEPT ![n] = cl[c].body]
   /\ nextId' = nextId + 1
-  /\ Set(c, [cl[c] EXCEPT !.pc = "av3", !.new = nextId, !.req = Req("put", VName(cl[c].parent, nextId))])
+  /\ Set(c, [cl[c] EXCEPT !.pc = "av3", !.new = n, !.req = Req("put", VName(cl[c].parent, n))])
   /\ UNCHANGED <<latest, old, snaps, spay, base, acked, bad>>
+
+(* ids: with atomic listings their order is immaterial and the next number is   *)
+(* used; with paged listings every relative name order is explored              *)
+NewIds == IF PageSize = 0 THEN {nextId} \cap (1..MaxVer) ELSE {n \in 1..MaxVer : pay[n] = "-"}
 
 (* compare-and-swap of "latest"; draw = the random byte drawn by           *)
 (* maybe_cleanup right afterwards (cleanup runs iff draw < prob)           *)
@@ -150,13 +172,14 @@ CLL(c) ==   \* get latest
                !.dels = IF "GC1" \in Dev THEN Orphans(cl[c].L, latest) ELSE {}])
   /\ UNCHANGED <<latest, vers, pay, old, snaps, spay, nextId, base, acked, bad>>
 
-CLV(c) ==   \* list v-
-  /\ cl[c].pc = "clV"
-  /\ Set(c, [cl[c] EXCEPT !.L = vers, !.oldL = old \cap {e[2] : e \in vers},
+CLVWith(c, L, Lold) ==   \* the listing of all version objects has returned L (Lold: the old ones)
+  /\ Set(c, NoList([cl[c] EXCEPT !.L = L, !.oldL = Lold,
                !.req = Req("list", <<"vall", 0, 0>>),
                !.pc = IF "GC1" \in Dev THEN "clL" ELSE "clD",
-               !.dels = IF "GC1" \in Dev THEN {} ELSE Orphans(vers, cl[c].l)])
+               !.dels = IF "GC1" \in Dev THEN {} ELSE Orphans(L, cl[c].l)]))
   /\ UNCHANGED <<latest, vers, pay, old, snaps, spay, nextId, base, acked, bad>>
+
+CLV(c) == cl[c].pc = "clV" /\ PageSize = 0 /\ CLVWith(c, vers, old \cap {e[2] : e \in vers})
 
 (* when nothing is left to delete the cleanup is over and add_version goes   *)
 (* on to the urgency                                                       *)
@@ -171,21 +194,22 @@ CLD(c, e) ==   \* del one orphan
 (* list s-; find the newest snapshot on the walk from the latest read;      *)
 (* plan the deletion of the other snapshots and of old versions at or      *)
 (* before it                                                               *)
-CLS(c) ==
-  /\ cl[c].pc = "clD" /\ cl[c].dels = {}
+CLSWith(c, S) ==    \* the listing of the snapshot objects has returned S
   /\ LET L == cl[c].L
          l == cl[c].l
          walk == IF l = NoLatest THEN <<>> ELSE WalkSeq(L, l, MaxVer + 1)
          nodes == IF l = NoLatest THEN <<>> ELSE <<l>> \o [i \in 1..Len(walk) |-> ParentIn(L, walk[i])]
-         hits == {i \in DOMAIN nodes : nodes[i] \in snaps}
+         hits == {i \in DOMAIN nodes : nodes[i] \in S}
          ls == IF hits = {} THEN -1 ELSE nodes[CHOOSE i \in hits : \A j \in hits : i <= j]
          back == IF ls = -1 THEN <<>> ELSE WalkSeq(L, ls, MaxVer + 1)
          oldback == SelectSeq(back, LAMBDA v : v \in cl[c].oldL)
      IN IF ls = -1
-        THEN Set(c, [cl[c] EXCEPT !.pc = "avU", !.req = Req("list", <<"s", 0, 0>>)])
-        ELSE Set(c, CLFin([cl[c] EXCEPT !.pc = "clX", !.S = snaps, !.sdel = snaps \ {ls},
-                              !.odel = oldback, !.req = Req("list", <<"s", 0, 0>>)]))
+        THEN Set(c, NoList([cl[c] EXCEPT !.pc = "avU", !.req = Req("list", <<"s", 0, 0>>)]))
+        ELSE Set(c, NoList(CLFin([cl[c] EXCEPT !.pc = "clX", !.S = S, !.sdel = S \ {ls},
+                                     !.odel = oldback, !.req = Req("list", <<"s", 0, 0>>)])))
   /\ UNCHANGED <<latest, vers, pay, old, snaps, spay, nextId, base, acked, bad>>
+
+CLS(c) == cl[c].pc = "clD" /\ cl[c].dels = {} /\ PageSize = 0 /\ CLSWith(c, snaps)
 
 CLXS(c, s) ==   \* del one redundant snapshot
   /\ cl[c].pc = "clX" /\ s \in cl[c].sdel
@@ -218,15 +242,16 @@ GCCall(c, parent) ==
                          !.prob = cl[c].prob])
   /\ UNCHANGED <<latest, vers, pay, old, snaps, spay, nextId, base, acked, bad>>
 
-GC1(c) ==   \* list v-PARENT-
-  /\ cl[c].pc = "gc1"
-  /\ LET cs == {e[2] : e \in {x \in vers : x[1] = cl[c].parent}}
-     IN Set(c, IF cs = {}
+GC1With(c, cs) ==   \* the listing of v-PARENT- has returned the children cs
+  /\ Set(c, NoList(IF cs = {}
                THEN [Done(c, [kind |-> "none", ver |-> 0, pay |-> "-"])
                        EXCEPT !.req = Req("list", <<"v", cl[c].parent, 0>>)]
                ELSE [cl[c] EXCEPT !.pc = "gc2", !.cands = cs, !.prob = 255,
-                       !.req = Req("list", <<"v", cl[c].parent, 0>>)])
+                       !.req = Req("list", <<"v", cl[c].parent, 0>>)]))
   /\ UNCHANGED <<latest, vers, pay, old, snaps, spay, nextId, base, acked, bad>>
+
+GC1(c) == cl[c].pc = "gc1" /\ PageSize = 0
+          /\ GC1With(c, {e[2] : e \in {x \in vers : x[1] = cl[c].parent}})
 
 GC2(c) ==   \* get latest
   /\ cl[c].pc = "gc2"
@@ -236,18 +261,55 @@ GC2(c) ==   \* get latest
                     !.req = Req("get", LName)])
   /\ UNCHANGED <<latest, vers, pay, old, snaps, spay, nextId, base, acked, bad>>
 
-GC3(c, k) ==   \* list v-K- for one candidate: does it have children?
-  /\ cl[c].pc = "gc3" /\ k \in cl[c].todo
-  /\ LET ch == IF \E e \in vers : e[1] = k THEN k ELSE cl[c].chosen
+GC3With(c, k, has) ==   \* the listing of v-K- for candidate k is over: has it children?
+  /\ k \in cl[c].todo
+  /\ LET ch == IF has THEN k ELSE cl[c].chosen
          rest == cl[c].todo \ {k}
-     IN Set(c, IF rest # {}
-               THEN [cl[c] EXCEPT !.todo = rest, !.chosen = ch, !.req = Req("list", <<"v", k, 0>>)]
+     IN Set(c, NoList(IF rest # {}
+               THEN [cl[c] EXCEPT !.todo = rest, !.chosen = ch, !.cand = -1,
+                       !.req = Req("list", <<"v", k, 0>>)]
                ELSE IF ch = -1
                THEN [Done(c, [kind |-> "none", ver |-> 0, pay |-> "-"])
                        EXCEPT !.req = Req("list", <<"v", k, 0>>)]
-               ELSE [cl[c] EXCEPT !.todo = rest, !.chosen = ch, !.pc = "gc4",
-                       !.req = Req("list", <<"v", k, 0>>)])
+               ELSE [cl[c] EXCEPT !.todo = rest, !.chosen = ch, !.cand = -1, !.pc = "gc4",
+                       !.req = Req("list", <<"v", k, 0>>)]))
   /\ UNCHANGED <<latest, vers, pay, old, snaps, spay, nextId, base, acked, bad>>
+
+GC3(c, k) == cl[c].pc = "gc3" /\ PageSize = 0 /\ GC3With(c, k, \E e \in vers : e[1] = k)
+
+-----------------------------------------------------------------------------
+(* Paged listings (PageSize > 0): one request per page.                       *)
+ListPc(c) == cl[c].pc \in {"gc1", "gc3", "clV"} \/ (cl[c].pc = "clD" /\ cl[c].dels = {})
+(* the candidate being probed at gc3: candidates are probed in name order *)
+Cand(c) == IF cl[c].cand # -1 THEN cl[c].cand
+           ELSE CHOOSE k \in cl[c].todo : \A j \in cl[c].todo : k <= j
+LTarget(c) ==
+  CASE cl[c].pc = "gc1" -> {e \in vers : e[1] = cl[c].parent}
+    [] cl[c].pc = "gc3" -> {e \in vers : e[1] = Cand(c)}
+    [] cl[c].pc = "clV" -> vers
+    [] OTHER -> {<<x, 0>> : x \in snaps}
+LReqName(c) ==
+  CASE cl[c].pc = "gc1" -> <<"v", cl[c].parent, 0>>
+    [] cl[c].pc = "gc3" -> <<"v", Cand(c), 0>>
+    [] cl[c].pc = "clV" -> <<"vall", 0, 0>>
+    [] OTHER -> <<"s", 0, 0>>
+LPage(c) == TakeMin({n \in LTarget(c) : Less(cl[c].lafter, n)}, PageSize)
+
+ListStep(c) ==
+  /\ PageSize > 0 /\ ListPc(c)
+  /\ LET page == LPage(c)
+         acc == cl[c].lacc \cup page
+         accold == cl[c].lold \cup {n[2] : n \in {m \in page : m[2] \in old}}
+     IN IF Cardinality(page) < PageSize
+        THEN \* the listing is complete: the operation goes on with what it has been given
+             CASE cl[c].pc = "gc1" -> GC1With(c, {e[2] : e \in acc})
+               [] cl[c].pc = "gc3" -> GC3With(c, Cand(c), acc # {})
+               [] cl[c].pc = "clV" -> CLVWith(c, acc, accold)
+               [] OTHER -> CLSWith(c, {n[1] : n \in acc})
+        ELSE /\ Set(c, [cl[c] EXCEPT !.lacc = acc, !.lold = accold, !.lafter = MaxKey(page),
+                          !.cand = IF cl[c].pc = "gc3" THEN Cand(c) ELSE -1,
+                          !.req = Req("list", LReqName(c))])
+             /\ UNCHANGED <<latest, vers, pay, old, snaps, spay, nextId, base, acked, bad>>
 
 GC4(c) ==   \* get v-PARENT-CHOSEN
   /\ cl[c].pc = "gc4"
@@ -311,16 +373,15 @@ FailBefore(c) ==
   /\ Faults /\ cl[c].pc \notin {"idle"} /\ ~InCleanup(c)
   /\ Set(c, Fail(c))
   \* the id of the new version has been invented (and named in the failed request)
-  /\ nextId' = IF cl[c].pc = "av2" THEN nextId + 1 ELSE nextId
-  /\ (cl[c].pc = "av2" => nextId <= MaxVer)
+  /\ IF cl[c].pc = "av2" THEN nextId <= MaxVer /\ nextId' = nextId + 1 ELSE UNCHANGED nextId
   /\ UNCHANGED <<latest, vers, pay, old, snaps, spay, base, acked, bad>>
 
 (* effect-then-error for the three writing requests of add_version /        *)
 (* add_snapshot                                                            *)
-FailAfterPut(c) ==
-  /\ Faults /\ cl[c].pc = "av2" /\ nextId <= MaxVer
-  /\ vers' = vers \cup {<<cl[c].parent, nextId>>}
-  /\ pay' = [pay EXCEPT ![nextId] = cl[c].body]
+FailAfterPut(c, n) ==
+  /\ Faults /\ cl[c].pc = "av2" /\ nextId <= MaxVer /\ Unused(n)
+  /\ vers' = vers \cup {<<cl[c].parent, n>>}
+  /\ pay' = [pay EXCEPT ![n] = cl[c].body]
   /\ nextId' = nextId + 1
   /\ Set(c, Fail(c))
   /\ UNCHANGED <<latest, old, snaps, spay, base, acked, bad>>
